@@ -354,7 +354,7 @@ def c10(tier, seed):
     for thr in ((1, 1, 2, 4, 16) if q else (1, 1, 1, 2, 3, 4, 8, 16)):
         for mode in ("monitor", "jitter"):
             k += 1
-            runs.append(fb("h_yield", "mon", "yield", seed, k, thr, mode=mode, trials=8 if q else 40, livelock_prop="C10",
+            runs.append(fb("h_yield", "mon", "yield", seed, k, thr, mode=mode, trials=(14 if thr in (2, 4) else 8) if q else 40, livelock_prop="C10",
                            **({"long": 4000} if mode == "jitter" else {})))
     for thr in ((1, 4) if q else (1, 2, 16)):
         k += 1
@@ -365,7 +365,9 @@ def c10(tier, seed):
                 rule="a case = one trial: seeded mix of forever-yielding fibers, victims that must run L times (L alternates 500 / 20000), yield-polling "
                 "loops waiting for flags set by later-created fibers, blockers (mutex, sleep) and creators, on 1 kernel thread (no stealing to mask "
                 "starvation) and on N. Oracle (online, ghost): number of switches a thread makes to other fibers while fiber X sits in its run queues "
-                "<= 2 x (most fibers alive) + 2 (+64 with stealing); maximum compared between short and long loops; every polling loop terminates.",
+                "<= 2 x (most fibers alive) + 2 (+64 with stealing); maximum compared between short and long loops; every polling loop terminates; "
+                "yields that return without a switch while the same ready fiber sits in the thread's own queue (B+1 and 2B+2 looks); a ready fiber "
+                "that is never run while its scheduler makes millions of switches (three looks).",
                 min_events={"yield_victim_runs": 1000, "yield_polling_loops_terminated": 1, "yield_fibers_created_midrun": 1},
                 assumptions=ASSUME_COMMON)
 
